@@ -4,7 +4,7 @@ import sys
 import time
 import traceback
 
-from . import common, facts, interp, wire, rules_wire
+from . import common, facts, interp, wire, rules_wire, rules_header
 from .common import Report, Facts, ExportError
 
 ASSUME_COMMON = [
@@ -185,7 +185,25 @@ def check_C05(ctx):
             "normalised DeserType/SerType equal the expectation. Programs outside the corpus and value equality are not decided.")
 
 
-CHECKS = {"C01": check_C01, "C02": check_C02, "C15": check_C15, "C05": check_C05}
+def check_C10(ctx):
+    rep = ctx.rep
+    rep.rule("G1", "acceptance conditions of check_header on its unique accepting path = {magic == MAGIC, major == VERSION.0, minor <= VERSION.1, usize byte == size_of::<usize>(), type hash == computed, align hash == computed}")
+    rep.rule("G2", "each rejecting path fails exactly one specified comparison and returns the specified error carrying the value read")
+    rep.rule("G3", "no panic path in check_header")
+    rep.rule("G4", "deserialize_full / deserialize_eps read the value once, after the header reads, only under all six acceptance conditions")
+    rep.rule("G5", "write_header and check_header agree on order, widths and provenance of the header atoms")
+    rep.rule("G6", "MAGIC, MAGIC_REV, VERSION const-evaluate to the published values")
+    u = ctx.universe()
+    rules_header.rules_G(u, rep)
+    rules_header.rules_G4(u, rep)
+    rules_header.rules_G6(u, rep)
+    rep.floor("guard rows of check_header", rep.counters.get("guard_rows", 0), 13)
+    return ("Guard table of the header check extracted from all paths of check_header (abstract interpretation, every read symbolic) and compared "
+            "with the table implied by the format: operator, reference constant, error variant and payload source of each of the checked fields; "
+            "plus dominance of the check over the value read in both deserializers.")
+
+
+CHECKS = {"C10": check_C10, "C01": check_C01, "C02": check_C02, "C15": check_C15, "C05": check_C05}
 
 
 def main(argv):
